@@ -11,6 +11,7 @@ import (
 	"sort"
 	"strconv"
 	"strings"
+	"sync"
 	"time"
 
 	"github.com/innovationb1ue/RedisGO/config"
@@ -183,21 +184,53 @@ type connState struct {
 	mgr *server.Manager
 }
 
-func execStep(mgr *server.Manager, cmd [][]byte) (out string) {
-	defer func() {
-		if e := recover(); e != nil {
-			out = "!PANIC"
-			if os.Getenv("VERIF_DEBUG") != "" {
-				fmt.Fprintln(os.Stderr, "panic:", e)
-			}
-		}
-	}()
-	r := mgr.ExecCommand(context.Background(), cmd, nil)
-	name := ""
-	if len(cmd) > 0 {
-		name = strings.ToLower(string(cmd[0]))
+// A command still running watchdogMs virtual milliseconds after it started (BLPOP with timeout 0
+// and nothing to pop blocks for ever; under faketime its ticker would spin for ever) is cancelled
+// through its context and reported as "!BLOCKED".  Not a multiple of 100, so the watchdog never
+// coincides with a polling tick or a whole-second timeout.  VERIF_WATCHDOG_MS overrides it.
+var watchdogMs = func() int64 {
+	if v, err := strconv.ParseInt(os.Getenv("VERIF_WATCHDOG_MS"), 10, 64); err == nil && v > 0 {
+		return v
 	}
-	return canonForCmd(name, canonReply(r))
+	return 100000050
+}()
+
+func execStep(mgr *server.Manager, cmd [][]byte) (out string) {
+	ctx, cancel := context.WithCancel(context.Background())
+	defer cancel()
+	done := make(chan string, 1)
+	go func() {
+		defer func() {
+			if e := recover(); e != nil {
+				if os.Getenv("VERIF_DEBUG") != "" {
+					fmt.Fprintln(os.Stderr, "panic:", e)
+				}
+				done <- "!PANIC"
+			}
+		}()
+		r := mgr.ExecCommand(ctx, cmd, nil)
+		name := ""
+		if len(cmd) > 0 {
+			name = strings.ToLower(string(cmd[0]))
+		}
+		done <- canonForCmd(name, canonReply(r))
+	}()
+	wd := time.NewTimer(time.Duration(watchdogMs) * time.Millisecond)
+	defer wd.Stop()
+	select {
+	case out = <-done:
+		return out
+	case <-wd.C:
+		cancel()
+		// let the cancelled executor finish (a leaked poller would steal later elements)
+		grace := time.NewTimer(time.Second)
+		defer grace.Stop()
+		select {
+		case <-done:
+		case <-grace.C:
+		}
+		return "!BLOCKED"
+	}
 }
 
 // memrun <progfile> <outfile> <scratchdir>
@@ -205,8 +238,13 @@ func execStep(mgr *server.Manager, cmd [][]byte) (out string) {
 //
 //	CASE <name> <dbs>
 //	C <conn> <sleep_ms> <hexarg> <hexarg> ...     (sleep happens before the command)
+//	BG <conn> <delay_ms> <hexarg> ...           (issued by another goroutine delay_ms after the next C command starts)
 //	DUMP
 //	END
+//
+// A C command preceded by BG lines, and every BLPOP/BRPOP, is traced as the G lines of the
+// background commands (same layout as S, chronological), the S line, and "T <unix ms at which the
+// C command returned>".
 //
 // The same Manager is shared by all connections of a case (as server.Start does).
 func memRunCmd(args []string) error {
@@ -228,6 +266,12 @@ func memRunCmd(args []string) error {
 	sc := bufio.NewScanner(f)
 	sc.Buffer(make([]byte, 1<<20), 1<<28)
 	var mgr *server.Manager
+	type bgCmd struct {
+		conn  string
+		delay int
+		args  []string
+	}
+	var pendingBG []bgCmd
 	progress, _ := os.Create(args[1] + ".progress")
 	defer progress.Close()
 	for sc.Scan() {
@@ -242,6 +286,7 @@ func memRunCmd(args []string) error {
 			cfg := setupServer(dbs, args[2])
 			mgr = server.NewManager(cfg)
 			fmt.Fprintf(w, "CASE %s %d\n", fs[1], dbs)
+			fmt.Fprintf(w, "WD %d\n", watchdogMs)
 			progress.Seek(0, 0)
 			fmt.Fprintf(progress, "%s\n", fs[1])
 		case "C":
@@ -253,9 +298,48 @@ func memRunCmd(args []string) error {
 			for _, h := range fs[3:] {
 				cmd = append(cmd, unhx(h))
 			}
+			name := ""
+			if len(cmd) > 0 {
+				name = strings.ToLower(string(cmd[0]))
+			}
+			timed := len(pendingBG) > 0 || name == "blpop" || name == "brpop"
+			bgOut := make([]string, len(pendingBG))
+			bgAt := make([]time.Time, len(pendingBG))
+			var wg sync.WaitGroup
+			for i, b := range pendingBG {
+				wg.Add(1)
+				go func(i int, b bgCmd) {
+					defer wg.Done()
+					time.Sleep(time.Duration(b.delay) * time.Millisecond)
+					bc := make([][]byte, 0, len(b.args))
+					for _, h := range b.args {
+						bc = append(bc, unhx(h))
+					}
+					bgAt[i] = time.Now()
+					bgOut[i] = execStep(mgr, bc)
+				}(i, b)
+			}
 			now := time.Now()
 			out := execStep(mgr, cmd)
+			end := time.Now()
+			wg.Wait()
+			order := make([]int, len(pendingBG))
+			for i := range order {
+				order[i] = i
+			}
+			sort.SliceStable(order, func(a, b int) bool { return bgAt[order[a]].Before(bgAt[order[b]]) })
+			for _, i := range order {
+				b := pendingBG[i]
+				fmt.Fprintf(w, "G %d %d %s %s | %s\n", bgAt[i].Unix(), bgAt[i].UnixMilli(), b.conn, strings.Join(b.args, " "), bgOut[i])
+			}
+			pendingBG = nil
 			fmt.Fprintf(w, "S %d %d %s %s | %s\n", now.Unix(), now.UnixMilli(), fs[1], strings.Join(fs[3:], " "), out)
+			if timed {
+				fmt.Fprintf(w, "T %d\n", end.UnixMilli())
+			}
+		case "BG":
+			ms, _ := strconv.Atoi(fs[2])
+			pendingBG = append(pendingBG, bgCmd{conn: fs[1], delay: ms, args: fs[3:]})
 		case "DUMP":
 			now := time.Now().Unix()
 			for i, d := range mgr.DBs {
